@@ -79,7 +79,7 @@ def segmentations(n):
 # field-mode cases
 
 DELIMS = [b"-", b"--", b"ab", b"aba", "é".encode(), b"\t", b","]
-FILLERS = ["<", ">", "x", "{{", "}}", "\\n", " ", "é", "-"]
+FILLERS = ["<", ">", "x", "{{", "}}", "\\n", " ", "é", "-", "z", "-z", "-mjz"]   # the last ones look like flags when the text starts with them
 FALLBACKS = ["", "F", "a-b", "é"]
 
 
